@@ -63,8 +63,19 @@ def tie_quotes(ctx: Ctx) -> None:
              "non-trivial = output differs from input")
 
 
+def replay_findings(ctx: Ctx) -> None:
+    from flowmark import reformat_text
+    for fid, e in ctx.kf.items():
+        t = (e.get("input") or {}).get("text")
+        if t:
+            a = reformat_text(t, ellipses=True, smartquotes=False)
+            b = reformat_text(t, ellipses=True, smartquotes=True)
+            ctx.known_replay(fid, not qrel_ok(a, b))
+
+
 def run(ctx: Ctx) -> None:
     driver_ok = lean_obligations(ctx)
+    replay_findings(ctx)
     if driver_ok:
         ctx.guard("tie quotes", tie_quotes)
     doc_oracle(ctx, ctx.scale(400, 6000))
